@@ -83,6 +83,8 @@ def minimise(mod, case: dict, result: dict, jobs: int, budget_s: float, log) -> 
     cur, cur_res = dict(case), result
     if result.get("focus") is not None:
         cur["_focus"] = result["focus"]
+    if result.get("history") is not None:
+        cur["history"] = result["history"]
     shrinks = getattr(mod, "shrinks", None)
     rounds = 0
     while shrinks is not None and time.monotonic() < t_end and rounds < 60:
